@@ -926,3 +926,506 @@ theorem label_prefix (bytes : List Nat) (b : Buf) (hb : Bytes bytes) (vs : List 
     · exact (hw.trans ((ext_put _ _).trans (outer_ext _ _ _ _))).2.1
     · exact (hw.trans (outer_ext _ _ _ _)).2.1
 end UvModel.Puny
+
+/-! ### ToASCII and the destination size: two-run simulation (small vs large destination) -/
+namespace UvModel.Puny
+open UvModel.Utf8
+
+/-- the small destination holds exactly what fits of what the large one holds -/
+def Sim (b b' : Buf) : Prop := b.out = b'.out.take b.cap ∧ b.cap ≤ b'.cap
+
+theorem sim_put {b b' : Buf} (h : Sim b b') (c : Nat) : Sim (b.put c) (b'.put c) := by
+  obtain ⟨h1, h2⟩ := h
+  have hl : b.out.length = min b.cap b'.out.length := by rw [h1, List.length_take]
+  unfold Buf.put
+  by_cases hb' : b'.out.length < b'.cap
+  · rw [if_pos hb']
+    by_cases hb : b.out.length < b.cap
+    · rw [if_pos hb]
+      have hlt : b'.out.length < b.cap := by omega
+      have e : b.out = b'.out := by rw [h1, List.take_of_length_le (by omega)]
+      refine ⟨?_, h2⟩
+      show b.out ++ [c] = (b'.out ++ [c]).take b.cap
+      rw [List.take_of_length_le (by simp; omega), e]
+    · rw [if_neg hb]
+      refine ⟨?_, h2⟩
+      show b.out = (b'.out ++ [c]).take b.cap
+      rw [List.take_append_of_le_length (by omega)]; exact h1
+  · rw [if_neg hb']
+    have : ¬ b.out.length < b.cap := by omega
+    rw [if_neg this]; exact ⟨h1, h2⟩
+
+theorem writeAscii_sim (cps : List UInt32) (x h : UInt32) {b b' : Buf} (hs : Sim b b') :
+    Sim (writeAscii cps x h b) (writeAscii cps x h b') := by
+  induction cps generalizing x b b' with
+  | nil => exact hs
+  | cons c cs ih =>
+    unfold writeAscii
+    split
+    · exact ih x hs
+    · simp only []
+      split
+      · exact sim_put hs _
+      · exact ih _ (sim_put hs _)
+
+theorem digits_sim (bias k q : Nat) {b b' : Buf} (hs : Sim b b') :
+    Sim (digits bias k q b) (digits bias k q b') := by
+  fun_induction digits bias k q b generalizing b' with
+  | case1 k q b h => rw [digits, if_pos h]; exact sim_put hs _
+  | case2 k q b h x y =>
+    rename_i ih
+    rw [digits.eq_def bias k q b', if_neg h]; exact ih (sim_put hs _)
+
+/-- same loop state, destinations related by `Sim` -/
+def StSim (s s' : St) : Prop :=
+  s.h = s'.h ∧ s.todo = s'.todo ∧ s.bias = s'.bias ∧ s.delta = s'.delta ∧ s.first = s'.first ∧
+    Sim s.buf s'.buf
+
+theorem inner_sim (n : UInt32) (cps : List UInt32) {s s' : St} (hs : StSim s s') :
+    StSim (inner n cps s).1 (inner n cps s').1 ∧ (inner n cps s).2 = (inner n cps s').2 := by
+  induction cps generalizing s s' with
+  | nil => exact ⟨hs, rfl⟩
+  | cons c cs ih =>
+    obtain ⟨h1, h2, h3, h4, h5, h6⟩ := hs
+    rw [inner, inner]
+    simp only [← h1, ← h2, ← h3, ← h4, ← h5]
+    generalize (if c < n then s.delta + 1 else s.delta) = d1
+    by_cases c1 : c < n ∧ d1 = 0
+    · rw [if_pos c1, if_pos c1]; exact ⟨⟨rfl, rfl, rfl, rfl, rfl, h6⟩, rfl⟩
+    · rw [if_neg c1, if_neg c1]
+      by_cases c2 : c ≠ n
+      · rw [if_pos c2, if_pos c2]; exact ih ⟨rfl, rfl, rfl, rfl, rfl, h6⟩
+      · rw [if_neg c2, if_neg c2]
+        exact ih ⟨rfl, rfl, rfl, rfl, rfl, digits_sim _ _ _ h6⟩
+
+theorem outer_sim (fuel : Nat) (cps : List UInt32) (n : UInt32) {s s' : St} (hs : StSim s s') :
+    (outer fuel cps n s).1 = (outer fuel cps n s').1 ∧ Sim (outer fuel cps n s).2 (outer fuel cps n s').2 := by
+  induction fuel generalizing n s s' with
+  | zero => exact ⟨rfl, hs.2.2.2.2.2⟩
+  | succ f ih =>
+    obtain ⟨sh, st, sb, sd, sf, sbuf⟩ := s
+    obtain ⟨sh', st', sb', sd', sf', sbuf'⟩ := s'
+    simp only [StSim] at hs
+    obtain ⟨rfl, rfl, rfl, rfl, rfl, h6⟩ := hs
+    rw [outer, outer]
+    simp only []
+    by_cases c1 : st > 0
+    · simp only [if_pos c1]
+      by_cases c2 : minGE n cps 0xFFFFFFFF - n > (~~~ sd) / (sh + 1)
+      · simp only [if_pos c2]; exact ⟨by first | rfl | trivial, h6⟩
+      · simp only [if_neg c2]
+        have hi := inner_sim (minGE n cps 0xFFFFFFFF) cps
+          (s := ⟨sh, st, sb, sd + (minGE n cps 0xFFFFFFFF - n) * (sh + 1), sf, sbuf⟩)
+          (s' := ⟨sh, st, sb, sd + (minGE n cps 0xFFFFFFFF - n) * (sh + 1), sf, sbuf'⟩)
+          ⟨rfl, rfl, rfl, rfl, rfl, h6⟩
+        generalize inner (minGE n cps 0xFFFFFFFF) cps ⟨sh, st, sb, sd + (minGE n cps 0xFFFFFFFF - n) * (sh + 1), sf, sbuf⟩ = r at hi ⊢
+        generalize inner (minGE n cps 0xFFFFFFFF) cps ⟨sh, st, sb, sd + (minGE n cps 0xFFFFFFFF - n) * (sh + 1), sf, sbuf'⟩ = r' at hi ⊢
+        obtain ⟨t, ovf⟩ := r
+        obtain ⟨t', ovf'⟩ := r'
+        obtain ⟨⟨g1, g2, g3, g4, g5, g6⟩, g7⟩ := hi
+        simp only [] at g1 g2 g3 g4 g5 g6 g7 ⊢
+        subst g7
+        by_cases c3 : ovf = true
+        · simp only [if_pos c3]; exact ⟨by first | rfl | trivial, g6⟩
+        · simp only [if_neg c3]
+          exact ih _ ⟨g1, g2, g3, by simp only [g4], g5, g6⟩
+    · simp only [if_neg c1]; exact ⟨by first | rfl | trivial, h6⟩
+
+theorem label_sim (bytes : List Nat) {b b' : Buf} (hs : Sim b b') :
+    (label bytes b).1 = (label bytes b').1 ∧ Sim (label bytes b).2 (label bytes b').2 := by
+  unfold label
+  split
+  · exact ⟨rfl, hs⟩
+  · rename_i vs _
+    simp only []
+    generalize countLoop (vs.map Nat.toUInt32) 0 0 = p
+    obtain ⟨h, todo⟩ := p
+    simp only []
+    have h4 : Sim ((((b.put 120).put 110).put 45).put 45) ((((b'.put 120).put 110).put 45).put 45) :=
+      sim_put (sim_put (sim_put (sim_put hs _) _) _) _
+    have hw : Sim (writeAscii (vs.map Nat.toUInt32) 0 h (if todo > 0 then (((b.put 120).put 110).put 45).put 45 else b))
+        (writeAscii (vs.map Nat.toUInt32) 0 h (if todo > 0 then (((b'.put 120).put 110).put 45).put 45 else b')) := by
+      apply writeAscii_sim
+      split
+      · exact h4
+      · exact hs
+    by_cases c1 : todo = 0
+    · simp only [if_pos c1]; exact ⟨by first | rfl | trivial, hw⟩
+    · simp only [if_neg c1]
+      by_cases c2 : h > 0
+      · simp only [if_pos c2]; exact outer_sim _ _ _ ⟨rfl, rfl, rfl, rfl, rfl, sim_put hw _⟩
+      · simp only [if_neg c2]; exact outer_sim _ _ _ ⟨rfl, rfl, rfl, rfl, rfl, hw⟩
+
+theorem put_cap (b : Buf) (c : Nat) : (b.put c).cap = b.cap := (ext_put b c).1
+
+theorem last_sim (acc : List Nat) {b b' : Buf} (hs : Sim b b') :
+    (if acc ≠ [] then label acc b else ((0 : Int), b)).1 = (if acc ≠ [] then label acc b' else ((0 : Int), b')).1 ∧
+    Sim (if acc ≠ [] then label acc b else ((0 : Int), b)).2 (if acc ≠ [] then label acc b' else ((0 : Int), b')).2 ∧
+    (if acc ≠ [] then label acc b else ((0 : Int), b)).2.cap = b.cap := by
+  by_cases h : acc ≠ []
+  · simp only [if_pos h]; exact ⟨(label_sim acc hs).1, (label_sim acc hs).2, (label_ext acc b).1⟩
+  · simp only [if_neg h]; exact ⟨by first | rfl | trivial, hs, by first | rfl | trivial⟩
+
+/-- the run into the small destination, described by the run into the large one -/
+def ScanRel (small large : Int × Buf) (cap : Nat) : Prop :=
+  (large.1 < 0 → small.1 < 0) ∧
+  (0 ≤ large.1 →
+    (large.1 ≤ (cap : Int) → small.1 = large.1 ∧ small.2.out = large.2.out) ∧
+    ((cap : Int) < large.1 → small.1 = UV_EINVAL))
+
+theorem scan_sim (acc rest : List Nat) {b b' : Buf} (hs : Sim b b') :
+    ScanRel (scan acc rest b) (scan acc rest b') b.cap := by
+  fun_induction scan acc rest b' generalizing b with
+  | case1 acc b' r' =>
+    rename_i h1
+    have hr : (if acc ≠ [] then label acc b' else ((0 : Int), b')) = r' := by
+      by_cases h : acc ≠ [] <;> simp [r', h]
+    obtain ⟨e1, e2, e3⟩ := last_sim acc hs
+    rw [hr] at e1 e2
+    rw [scan]
+    simp only []
+    have : (if acc ≠ [] then label acc b else ((0 : Int), b)).1 < 0 := by rw [e1]; exact h1
+    rw [if_pos this]
+    exact ⟨fun _ => this, fun h => absurd h1 (by omega)⟩
+  | case2 acc b' r' h1 =>
+    rename_i h2
+    have hr : (if acc ≠ [] then label acc b' else ((0 : Int), b')) = r' := by
+      by_cases h : acc ≠ [] <;> simp [r', h]
+    obtain ⟨e1, e2, e3⟩ := last_sim acc hs
+    rw [hr] at e1 e2
+    rw [scan]
+    simp only []
+    have n1 : ¬ (if acc ≠ [] then label acc b else ((0 : Int), b)).1 < 0 := by rw [e1]; exact h1
+    have hl : (if acc ≠ [] then label acc b else ((0 : Int), b)).2.out.length =
+        min (if acc ≠ [] then label acc b else ((0 : Int), b)).2.cap r'.2.out.length := by
+      rw [e2.1, List.length_take]
+    have hc := e2.2
+    have n2 : (if acc ≠ [] then label acc b else ((0 : Int), b)).2.out.length ≥
+        (if acc ≠ [] then label acc b else ((0 : Int), b)).2.cap := by
+      have : r'.2.out.length ≥ r'.2.cap := h2
+      omega
+    rw [if_neg n1, if_pos n2]
+    exact ⟨fun _ => by show UV_EINVAL < 0; decide, fun h => absurd (show (0 : Int) ≤ UV_EINVAL from h) (by decide)⟩
+  | case3 acc b' r' h1 h2 =>
+    rename_i bb
+    have hr : (if acc ≠ [] then label acc b' else ((0 : Int), b')) = r' := by
+      by_cases h : acc ≠ [] <;> simp [r', h]
+    obtain ⟨e1, e2, e3⟩ := last_sim acc hs
+    rw [hr] at e1 e2
+    rw [scan]
+    simp only []
+    have n1 : ¬ (if acc ≠ [] then label acc b else ((0 : Int), b)).1 < 0 := by rw [e1]; exact h1
+    have hl : (if acc ≠ [] then label acc b else ((0 : Int), b)).2.out.length =
+        min (if acc ≠ [] then label acc b else ((0 : Int), b)).2.cap r'.2.out.length := by
+      rw [e2.1, List.length_take]
+    rw [if_neg n1]
+    refine ⟨fun h => ?_, fun _ => ⟨fun hle => ?_, fun hgt => ?_⟩⟩
+    · exfalso
+      have : (0 : Int) ≤ ((bb.out.length : Nat) : Int) := Int.natCast_nonneg _
+      exact absurd h (by simp only []; omega)
+    · have hlen : r'.2.out.length + 1 ≤ b.cap := by
+        have : ((bb.out.length : Nat) : Int) ≤ b.cap := hle
+        simp only [bb, List.length_append, List.length_singleton] at this
+        omega
+      have eo : (if acc ≠ [] then label acc b else ((0 : Int), b)).2.out = r'.2.out := by
+        rw [e2.1, List.take_of_length_le (by omega)]
+      have n2 : ¬ (if acc ≠ [] then label acc b else ((0 : Int), b)).2.out.length ≥
+          (if acc ≠ [] then label acc b else ((0 : Int), b)).2.cap := by rw [eo]; omega
+      rw [if_neg n2]
+      simp only [eo, bb]
+      exact ⟨trivial, trivial⟩
+    · have hlen : b.cap < r'.2.out.length + 1 := by
+        have : (b.cap : Int) < ((bb.out.length : Nat) : Int) := hgt
+        simp only [bb, List.length_append, List.length_singleton] at this
+        omega
+      have n2 : (if acc ≠ [] then label acc b else ((0 : Int), b)).2.out.length ≥
+          (if acc ≠ [] then label acc b else ((0 : Int), b)).2.cap := by omega
+      rw [if_pos n2]
+  | case4 acc b' a r n hx =>
+    rw [scan, hx]
+    exact ⟨fun _ => by show UV_EINVAL < 0; decide, fun h => absurd (show (0 : Int) ≤ UV_EINVAL from h) (by decide)⟩
+  | case5 acc b' a r c n hx hd ih =>
+    rw [scan, hx]
+    simp only [if_pos hd]
+    exact ih hs
+  | case6 acc b' a r c n hx hd res' =>
+    rename_i h1
+    rw [scan, hx]
+    simp only [if_neg hd]
+    have e := (label_sim acc hs).1
+    have : (label acc b).1 < 0 := by rw [e]; exact h1
+    rw [if_pos this]
+    exact ⟨fun _ => this, fun h => absurd h1 (by omega)⟩
+  | case7 acc b' a r c n hx hd res' =>
+    rename_i h1 ih
+    rw [scan, hx]
+    simp only [if_neg hd]
+    have e := label_sim acc hs
+    have : ¬ (label acc b).1 < 0 := by rw [e.1]; exact h1
+    rw [if_neg this]
+    have := ih (b := (label acc b).2.put 46) (sim_put e.2 46)
+    rw [put_cap, (label_ext acc b).1] at this
+    exact this
+
+/-- `uv__idna_toascii` and the destination size: if the conversion succeeds with `n` bytes for one
+    size, every size `≥ n` gives the same bytes and `n`, every smaller size gives UV_EINVAL -/
+theorem toascii_fits (s : List Nat) (cap cap' : Nat) (h : 0 ≤ (toascii s cap').1) :
+    ((toascii s cap').1 ≤ (cap : Int) → (toascii s cap).1 = (toascii s cap').1 ∧
+        (toascii s cap).2.out = (toascii s cap').2.out) ∧
+    ((cap : Int) < (toascii s cap').1 → (toascii s cap).1 = UV_EINVAL) := by
+  unfold toascii at h ⊢
+  by_cases hs : s = []
+  · rw [if_pos hs] at h; exact absurd (show (0 : Int) ≤ UV_EINVAL from h) (by decide)
+  · rw [if_neg hs] at h
+    simp only [if_neg hs]
+    by_cases hc : cap ≤ cap'
+    · have := scan_sim [] s (b := { cap := cap }) (b' := { cap := cap' }) ⟨by simp, hc⟩
+      exact this.2 h
+    · have := scan_sim [] s (b := { cap := cap' }) (b' := { cap := cap }) ⟨by simp, by simp only []; omega⟩
+      obtain ⟨hneg, hpos⟩ := this
+      by_cases hl : (scan [] s { cap := cap }).1 < 0
+      · have := hneg hl; omega
+      · obtain ⟨p1, p2⟩ := hpos (by omega)
+        by_cases hle : (scan [] s { cap := cap }).1 ≤ ((cap' : Nat) : Int)
+        · obtain ⟨q1, q2⟩ := p1 hle
+          refine ⟨fun _ => ⟨q1.symm, q2.symm⟩, fun hgt => ?_⟩
+          rw [q1] at hgt; omega
+        · have := p2 (by simp only []; omega)
+          rw [this] at h
+          exact absurd (show (0 : Int) ≤ UV_EINVAL from h) (by decide)
+end UvModel.Puny
+
+/-! ### the outer Punycode loop terminates within the model's fuel -/
+namespace UvModel.Puny
+open UvModel.Utf8
+
+/-- code points `≥ n` still to be encoded -/
+def cntGE (n : UInt32) (cps : List UInt32) : Nat := cps.countP (fun c => decide (n.toNat ≤ c.toNat))
+/-- occurrences of `m` -/
+def cntEQ (m : UInt32) (cps : List UInt32) : Nat := cps.countP (fun c => decide (c.toNat = m.toNat))
+
+theorem minGE_spec (n : UInt32) (cps : List UInt32) (m0 : UInt32) :
+    (minGE n cps m0).toNat ≤ m0.toNat ∧
+    (∀ c ∈ cps, n.toNat ≤ c.toNat → (minGE n cps m0).toNat ≤ c.toNat) ∧
+    (minGE n cps m0 = m0 ∨ (minGE n cps m0 ∈ cps ∧ n.toNat ≤ (minGE n cps m0).toNat)) := by
+  induction cps generalizing m0 with
+  | nil => exact ⟨Nat.le_refl _, fun c hc => absurd hc (by simp), Or.inl rfl⟩
+  | cons c cs ih =>
+    rw [minGE]
+    by_cases hc : c ≥ n ∧ c < m0
+    · rw [if_pos hc]
+      obtain ⟨i1, i2, i3⟩ := ih c
+      have h1 := UInt32.le_iff_toNat_le.mp hc.1
+      have h2 := UInt32.lt_iff_toNat_lt.mp hc.2
+      refine ⟨by omega, fun x hx hn => ?_, ?_⟩
+      · rcases List.mem_cons.mp hx with rfl | hx
+        · exact i1
+        · exact i2 x hx hn
+      · rcases i3 with e | ⟨e1, e2⟩
+        · right; rw [e]; exact ⟨by simp, h1⟩
+        · right; exact ⟨List.mem_cons_of_mem _ e1, e2⟩
+    · rw [if_neg hc]
+      obtain ⟨i1, i2, i3⟩ := ih m0
+      refine ⟨i1, fun x hx hn => ?_, ?_⟩
+      · rcases List.mem_cons.mp hx with rfl | hx
+        · have : ¬ x < m0 := fun h => hc ⟨UInt32.le_iff_toNat_le.mpr hn, h⟩
+          have : ¬ x.toNat < m0.toNat := fun h => this (UInt32.lt_iff_toNat_lt.mpr h)
+          omega
+        · exact i2 x hx hn
+      · rcases i3 with e | ⟨e1, e2⟩
+        · left; exact e
+        · right; exact ⟨List.mem_cons_of_mem _ e1, e2⟩
+
+theorem inner_todo (m : UInt32) (cps : List UInt32) (s : St) (h : cntEQ m cps ≤ s.todo.toNat)
+    (hov : (inner m cps s).2 = false) :
+    (inner m cps s).1.todo.toNat = s.todo.toNat - cntEQ m cps := by
+  induction cps generalizing s with
+  | nil => simp [inner, cntEQ]
+  | cons c cs ih =>
+    rw [inner] at hov ⊢
+    simp only [] at hov ⊢
+    generalize (if c < m then s.delta + 1 else s.delta) = d1 at hov ⊢
+    by_cases c1 : c < m ∧ d1 = 0
+    · rw [if_pos c1] at hov; cases hov
+    · rw [if_neg c1] at hov ⊢
+      by_cases c2 : c ≠ m
+      · rw [if_pos c2] at hov ⊢
+        have hne : ¬ c.toNat = m.toNat := fun e => c2 (UInt32.toNat_inj.mp e)
+        have e : cntEQ m (c :: cs) = cntEQ m cs := by
+          simp only [cntEQ, List.countP_cons, decide_eq_true_eq, if_neg hne, Nat.add_zero]
+        rw [e] at h ⊢
+        exact ih _ h hov
+      · rw [if_neg c2] at hov ⊢
+        have heq : c.toNat = m.toNat := by
+          have : c = m := Classical.not_not.mp c2
+          rw [this]
+        have e : cntEQ m (c :: cs) = cntEQ m cs + 1 := by
+          simp only [cntEQ, List.countP_cons, decide_eq_true_eq, if_pos heq]
+        rw [e] at h ⊢
+        have h1 : (1 : UInt32) ≤ s.todo := UInt32.le_iff_toNat_le.mpr (by
+          have : (1 : UInt32).toNat = 1 := rfl
+          omega)
+        have hs : (s.todo - 1).toNat = s.todo.toNat - 1 := by
+          rw [UInt32.toNat_sub_of_le _ _ h1]; rfl
+        have := ih _ (by simp only []; omega) hov
+        rw [this]; simp only []; omega
+
+theorem cnt_split (n m : UInt32) (cps : List UInt32) (hnm : n.toNat ≤ m.toNat)
+    (hmin : ∀ c ∈ cps, n.toNat ≤ c.toNat → m.toNat ≤ c.toNat) (hm : m.toNat + 1 < 4294967296) :
+    cntGE n cps = cntEQ m cps + cntGE (m + 1) cps := by
+  have hm1 : (m + 1).toNat = m.toNat + 1 := by
+    rw [UInt32.toNat_add, UInt32.toNat_one]; omega
+  induction cps with
+  | nil => rfl
+  | cons c cs ih =>
+    have := ih (fun x hx => hmin x (List.mem_cons_of_mem _ hx))
+    have hc := hmin c (by simp)
+    simp only [cntGE, cntEQ, List.countP_cons, decide_eq_true_eq, hm1] at this ⊢
+    rw [this]
+    repeat' split
+    all_goals omega
+
+theorem outer_no_fuel (fuel : Nat) (cps : List UInt32) (n : UInt32) (s : St)
+    (hc : ∀ c ∈ cps, c.toNat + 1 < 4294967295) (ht : s.todo.toNat = cntGE n cps)
+    (hf : cntGE n cps < fuel) : (outer fuel cps n s).1 ≠ FUEL_OUT := by
+  induction fuel generalizing n s with
+  | zero => omega
+  | succ f ih =>
+    rw [outer]
+    by_cases c1 : s.todo > 0
+    · rw [if_pos c1]
+      simp only []
+      have hpos : 0 < cntGE n cps := by
+        have := UInt32.lt_iff_toNat_lt.mp c1
+        have h0 : (0 : UInt32).toNat = 0 := rfl
+        omega
+      obtain ⟨x, hx, hxn⟩ := List.countP_pos_iff.mp hpos
+      simp only [decide_eq_true_eq] at hxn
+      obtain ⟨m1, m2, m3⟩ := minGE_spec n cps 0xFFFFFFFF
+      generalize minGE n cps 0xFFFFFFFF = m at m1 m2 m3 ⊢
+      have hmx := m2 x hx hxn
+      have hxlt := hc x hx
+      have hmem : m ∈ cps ∧ n.toNat ≤ m.toNat := by
+        rcases m3 with e | e
+        · rw [e] at hmx
+          have : (0xFFFFFFFF : UInt32).toNat = 4294967295 := rfl
+          omega
+        · exact e
+      by_cases c2 : m - n > (~~~ s.delta) / (s.h + 1)
+      · rw [if_pos c2]; show UV_E2BIG ≠ FUEL_OUT; decide
+      · rw [if_neg c2]
+        have hsplit := cnt_split n m cps hmem.2 m2 (by have := hc m hmem.1; omega)
+        have heq1 : 1 ≤ cntEQ m cps := by
+          apply List.countP_pos_iff.mpr
+          exact ⟨m, hmem.1, by simp⟩
+        by_cases c3 : (inner m cps { s with delta := s.delta + (m - n) * (s.h + 1) }).2 = true
+        · simp only [c3, if_true]; show UV_E2BIG ≠ FUEL_OUT; decide
+        · have c3' : (inner m cps { s with delta := s.delta + (m - n) * (s.h + 1) }).2 = false := by
+            simpa using c3
+          simp only [c3', Bool.false_eq_true, if_false]
+          have htodo := inner_todo m cps { s with delta := s.delta + (m - n) * (s.h + 1) }
+            (by simp only []; omega) c3'
+          apply ih
+          · simp only []; rw [htodo]; simp only []; omega
+          · omega
+    · rw [if_neg c1]; show (0 : Int) ≠ FUEL_OUT; decide
+
+theorem specAll_length (l : List Nat) (vs : List Nat) (h : specAll l = some vs) : vs.length ≤ l.length := by
+  fun_induction specAll l generalizing vs with
+  | case1 => simp at h; subst h; simp
+  | case2 a rest v n hs ih =>
+    simp only [Option.map_eq_some_iff] at h
+    obtain ⟨vs', h1, rfl⟩ := h
+    have := ih vs' h1
+    simp only [List.length_cons, List.length_drop] at this ⊢
+    omega
+  | case3 a rest hs => simp at h
+
+theorem label_no_fuel (bytes : List Nat) (b : Buf) (hb : Bytes bytes) (hlen : bytes.length < 4294967296) :
+    (label bytes b).1 ≠ FUEL_OUT := by
+  unfold label
+  rw [decodeAll_eq_specAll bytes hb]
+  cases hs : specAll bytes with
+  | none => show UV_EINVAL ≠ FUEL_OUT; decide
+  | some vs =>
+    simp only []
+    have hle := specAll_le bytes hb vs hs
+    have hvl := specAll_length bytes vs hs
+    have hct := countLoop_todo (vs.map Nat.toUInt32) 0 0 (by
+      have h00 : (0 : UInt32).toNat = 0 := rfl
+      simp only [List.length_map]; omega)
+    generalize countLoop (vs.map Nat.toUInt32) 0 0 = p at hct ⊢
+    obtain ⟨h, todo⟩ := p
+    simp only [] at hct ⊢
+    by_cases c1 : todo = 0
+    · simp only [if_pos c1]
+      intro hcon
+      have : (0 : Int) ≤ (h.toNat : Int) := Int.natCast_nonneg _
+      rw [hcon] at this
+      exact absurd this (by decide)
+    · simp only [if_neg c1]
+      apply outer_no_fuel
+      · intro c hc
+        obtain ⟨v, hv, rfl⟩ := List.mem_map.mp hc
+        have := hle v hv
+        simp only [Nat.toUInt32, UInt32.toNat_ofNat']
+        show v % 4294967296 + 1 < 4294967295
+        omega
+      · simp only []
+        rw [hct]
+        have h00 : (0 : UInt32).toNat = 0 := rfl
+        rw [h00, Nat.zero_add, cntGE]
+        apply List.countP_congr
+        intro c _
+        have h128 : (128 : UInt32).toNat = 128 := rfl
+        simp only [decide_eq_true_eq, UInt32.lt_iff_toNat_lt, h128]
+        omega
+      · have := List.countP_le_length (p := fun c : UInt32 => decide ((128 : UInt32).toNat ≤ c.toNat))
+          (l := vs.map Nat.toUInt32)
+        simp only [cntGE]; omega
+
+theorem bytes_append {a b : List Nat} (ha : Bytes a) (hb : Bytes b) : Bytes (a ++ b) := by
+  intro x hx
+  rcases List.mem_append.mp hx with h | h
+  · exact ha x h
+  · exact hb x h
+
+theorem scan_no_fuel (acc rest : List Nat) (b : Buf) (ha : Bytes acc) (hr : Bytes rest)
+    (hlen : acc.length + rest.length < 4294967296) : (scan acc rest b).1 ≠ FUEL_OUT := by
+  fun_induction scan acc rest b with
+  | case1 acc b r h1 =>
+    have : r = if acc ≠ [] then label acc b else ((0 : Int), b) := rfl
+    by_cases hne : acc ≠ []
+    · rw [this, if_pos hne]; exact label_no_fuel acc b ha (by simp at hlen; omega)
+    · rw [if_neg hne] at this; rw [this]; show (0 : Int) ≠ FUEL_OUT; decide
+  | case2 acc b r h1 h2 => show UV_EINVAL ≠ FUEL_OUT; decide
+  | case3 acc b r h1 h2 b' =>
+    intro hcon
+    have : (0 : Int) ≤ ((b'.out.length : Nat) : Int) := Int.natCast_nonneg _
+    have hh : ((b'.out.length : Nat) : Int) = FUEL_OUT := hcon
+    rw [hh] at this
+    exact absurd this (by decide)
+  | case4 acc b a r n hx => show UV_EINVAL ≠ FUEL_OUT; decide
+  | case5 acc b a r c n hx hd ih =>
+    apply ih
+    · exact bytes_append ha (fun x hx => hr x (List.mem_of_mem_take hx))
+    · exact bytes_drop (bytes_cons hr).2 _
+    · simp only [List.length_append, List.length_take, List.length_drop, List.length_cons] at hlen ⊢
+      omega
+  | case6 acc b a r c n hx hd res h1 =>
+    exact label_no_fuel acc b ha (by omega)
+  | case7 acc b a r c n hx hd res h1 ih =>
+    apply ih
+    · intro x hx; simp at hx
+    · exact bytes_drop (bytes_cons hr).2 _
+    · simp only [List.length_nil, List.length_drop, List.length_cons] at hlen ⊢
+      omega
+
+/-- the model's fuel for the outer Punycode loop always suffices -/
+theorem toascii_no_fuel (s : List Nat) (cap : Nat) (hb : Bytes s) (hlen : s.length < 4294967296) :
+    (toascii s cap).1 ≠ FUEL_OUT := by
+  unfold toascii
+  split
+  · show UV_EINVAL ≠ FUEL_OUT; decide
+  · exact scan_no_fuel [] s _ (by intro x hx; simp at hx) hb (by simpa using hlen)
+end UvModel.Puny
